@@ -407,4 +407,7 @@ def run(ctx):
             if len(rdy) != 1 or not {"wishbone.ack", "port.wdata.valid"} <= r.guard_keys(rdy[0], False) or rdy[0].state != wstates[0]:
                 ob1.refute("reverse:wdata-ready", "reverse bridge: port.wdata.ready is asserted under %s, expected only on the Wishbone acknowledge of a cycle started with valid data" %
                            [sorted(r.guard_keys(l, False)) for l in rdy], rdy[0].loc if rdy else None)
+    ob5 = ctx.ob("C10.5", "a bus wider than the port goes through the native down-converter: one access = exactly `ratio` sub-commands with consecutive addresses (the "
+                          "splitting discipline of C07.1 is a necessary condition of this bridge as well)", 1)
+    share(ctx, ob5, "C07", ("C07.1",))
     ctx.assume("data values and memory-side timing are not decided; the address-width adjustment of the bridge is covered by C07.3")
